@@ -605,7 +605,7 @@ func (c *Connection) acceptRequest(ctx context.Context, msg *Request, msgBytes i
 		}
 	})
 	if err != nil {
-		c.processResult("acceptRequest", req, nil, err)
+		c.respondFromReader("acceptRequest", req, nil, err)
 		return
 	}
 
@@ -618,7 +618,7 @@ func (c *Connection) acceptRequest(ctx context.Context, msg *Request, msgBytes i
 		}
 
 		if !errors.Is(err, ErrNotHandled) {
-			c.processResult("Preempt", req, result, err)
+			c.respondFromReader("Preempt", req, result, err)
 			return
 		}
 	}
@@ -658,8 +658,25 @@ func (c *Connection) acceptRequest(ctx context.Context, msg *Request, msgBytes i
 		}
 	})
 	if err != nil {
-		c.processResult("acceptRequest", req, nil, err)
+		c.respondFromReader("acceptRequest", req, nil, err)
 	}
+}
+
+// respondFromReader completes a request that is answered by the readIncoming
+// goroutine itself (rejected, or handled by the Preempter).
+//
+// The response to a call is written from a separate goroutine. Over a
+// transport whose Write blocks until the peer reads (net.Pipe, OS pipes with
+// a full buffer), two connections answering each other from their read loops
+// would otherwise block each other forever, since neither would be reading.
+// The request stays counted in s.incoming until processResult returns, so the
+// connection cannot become idle, and Close cannot return, before then.
+func (c *Connection) respondFromReader(from any, req *incomingRequest, result any, err error) {
+	if req.IsCall() {
+		go c.processResult(from, req, result, err)
+		return
+	}
+	c.processResult(from, req, result, err)
 }
 
 // handleAsync invokes the handler on the requests in the handler queue
